@@ -309,19 +309,24 @@ def abort_oracle(pid, case, impl, variants):
 
 # scenario families (harness/scenarios.py) per property: structured interaction matrices next to the random streams
 SCEN = {'C01': ['attrs', 'blockdefs', 'macros', 'redefs', 'unicode', 'nesting'], 'C02': ['macros', 'lists'], 'C03': ['blockdefs', 'attrs', 'inline', 'unicode'],
-        'C04': ['options', 'blockdefs', 'redefs'], 'C05': ['blockdefs', 'options', 'repeat', 'redefs'], 'C06': ['inline', 'lists', 'nesting'],
-        'C07': ['inline', 'redefs', 'unicode'], 'C08': ['dispatch', 'attrs', 'nesting', 'unicode'], 'C09': ['inline', 'dispatch', 'nesting'],
+        'C04': ['options', 'blockdefs', 'redefs'], 'C05': ['blockdefs', 'options', 'repeat', 'redefs'], 'C06': ['inline', 'lists', 'nesting', 'blockdefs'],
+        'C07': ['inline', 'redefs', 'unicode'], 'C08': ['dispatch', 'attrs', 'nesting', 'unicode'], 'C09': ['inline', 'dispatch', 'nesting', 'unicode'],
         'C10': ['lists', 'nesting'], 'C11': ['macros', 'unicode'], 'C12': ['attrs', 'lists', 'nesting'], 'C13': ['lists', 'ids', 'nesting'],
-        'C14': ['repeat', 'options', 'redefs'], 'C15': ['ids', 'unicode'], 'C16': ['dispatch', 'lists', 'nesting'],
-        'C17': ['inline', 'dispatch', 'redefs', 'unicode'], 'C19': ['options', 'blockdefs', 'macros', 'nesting'], 'C20': ['options']}
+        'C14': ['repeat', 'options', 'redefs', 'unicode'], 'C15': ['ids', 'unicode', 'attrs'], 'C16': ['dispatch', 'lists', 'nesting'],
+        'C17': ['inline', 'dispatch', 'redefs', 'unicode', 'macros'], 'C19': ['options', 'blockdefs', 'macros', 'nesting'], 'C20': ['options']}
 
 
 def scenario_streams(ctx):
+    """every check runs every family (correspondence does not depend on the property); the families that concern the
+    property are sampled densely in the quick tier, the others thinly; the thorough tier runs all cases"""
     import scenarios
     out = []
-    for f in SCEN.get(ctx.pid, []):
-        cs = scenarios.family(f, ctx.quick, share=2500)
-        if ctx.pid == 'C16':
+    own = SCEN.get(ctx.pid, [])
+    if ctx.pid == 'C18':
+        return out
+    for f in scenarios.FAMILIES:
+        cs = scenarios.family(f, ctx.quick, share=2500 if f in own else 600)
+        if ctx.pid == 'C16' and f in own:
             # the same documents with a trailing terminator, and in CR LF
             cs = [dict(c, calls=[dict(k, src=k['src'] + t) for k in c['calls']]) for c in cs[::3] for t in ('\n', '\r\n', '\r')] + \
                  [dict(c, calls=[dict(k, src=k['src'].replace('\n', '\r\n')) for k in c['calls']]) for c in cs[1::3]]
@@ -1356,6 +1361,8 @@ class C09(ExpectSpec):
             lines = []
             for _ in range(rng.randint(1, 4)):
                 l = gen.inline_text(rng, rng.randint(1, 3)).strip() or 'x'
+                if rng.random() < 0.3:
+                    l = rng.choice(['std::cout << x;', 'Foo::Bar.new', 'a::b c:::d', 'x ::y', 'if (a::b) { c }', 'k:v ::: w'])
                 l = re.sub('[\x00-\x02\r\n]', ' ', l).strip() or 'x'
                 lines.append(l)
             if any(r.match('  ' + lines[0]) for r in self.LIST_RES):
